@@ -18,7 +18,7 @@ CLAIMS["C14"] = {
     "note": "Recursion depth is bounded by the guard cutting the run->execute->result->run cycle; Python's stack behaviour is modelled, not run.",
 }
 
-ARR_NOTE = "Numeric content (that a formula is the documented one) is not decided. numpy behaviour enters only through the axioms A1-A25; an operation outside the analyser's vocabulary is ANALYSIS-ERROR (exit 2)."
+ARR_NOTE = "Numeric content (that a formula is the documented one) is not decided. numpy behaviour enters only through the axioms A1-A28; an operation outside the analyser's vocabulary is ANALYSIS-ERROR (exit 2)."
 CLAIMS["C02"] = {"engine": "C-arrays", "technique": "call-graph reachability (no clean at load), effect whitelist and return-kind abstract interpretation over 36 execute bodies",
     "text": "Decides order-independence structurally: Parameter.clean is unreachable from loading and the command table is looked up by name only in ResultParameter.clean (C02.a); execute bodies have no self/global/file effects outside I/O commands (C02.b); Metadata is never read (C02.c); every Data producer returns a MaskedArray given masked inputs, so any data result can feed any data input (C02.d). Equality with the mathematical evaluation is not decided.", "note": ARR_NOTE}
 CLAIMS["C03"] = {"engine": "C-arrays", "technique": "abstract interpretation: mask-coverage (must) vs value-dependence and hidden-payload (may) sets at every return of every data command",
@@ -121,6 +121,14 @@ ADDED5 = {
     "C19": "C19.a: the loader never consults sys.modules (what is offered does not depend on import history).",
     "C20": "C20.e: every return of ListParameter.clean is the item-wise clean (raw items handed back uncleaned keep the loader's wrappers).",
 }
+ADDED6 = {
+    "C01": "C01.h accepts lookups after the loading loop and lookups whose miss reaches no additional raise; C01.e accepts a deepcopy whose memo maps every referenced command to itself.",
+    "C14": "C14.g: a recursive walk of the reference graph marks a command before it descends (a mark after the descent never stops a loop).",
+    "C19": "C19.a/b/c: accumulated selections dedup and follow loading; an extra condition on the duplicate gate must follow from the duplicates; a class-level record of completed loads compared by identity with sys.modules is accepted.",
+    "C20": "C20.d: a value remembered on the parameter object is keyed by every parameter the method reads.",
+}
+for _k, _v in ADDED6.items():
+    CLAIMS[_k]["text"] += " " + _v
 for _k, _v in ADDED5.items():
     CLAIMS[_k]["text"] += " " + _v
 for _k, _v in ADDED4.items():
